@@ -883,8 +883,9 @@ func specNeedsRehandshake(cm *connectionManager, h *HostInfo) bool {
 //@   trusted removes the tunnel from the hostmap
 //@   effect acted closed
 //@ func (*Interface).handleHostRoaming
-//@   trusted may move the tunnel's remote address to the packet's source (roaming)
+//@   trusted may move the tunnel's remote address to the packet's source (roaming): writes only the tunnel's remote and last-roam fields
 //@   effect acted
+//@   assigns hostinfo.remote, hostinfo.lastRoam, hostinfo.lastRoamRemote
 //@ func (*Interface).handleOutsideMessagePacket
 //@   trusted firewall check, then delivery of the plaintext to the tun device
 //@   effect acted delivered
@@ -1073,11 +1074,13 @@ func specTunnelOK(h *HostInfo) bool {
 
 //@ func (*Interface).SendVia
 //@   trusted encrypts on the relay tunnel's own connection state (prepareSendVia, verified above) and writes to the network
+//@   effect forwarded
 //@   ensures via.ConnectionState.messageCounter.Load() >= old(via.ConnectionState.messageCounter.Load())
 //@   assigns via.ConnectionState.messageCounter, via.out
 //@ func (*HostMap).QueryVpnAddrsRelayFor
-//@   trusted read-only hostmap lookup under its read lock
+//@   trusted read-only hostmap lookup under its read lock: the tunnel to relayHostIp and the relay entry it holds for one of targetIps, a deterministic function of the hostmap and its arguments
 //@   ensures implies(result2 == nil, result0 != nil && result1 != nil && result0.ConnectionState != nil)
+//@   ensures result0 == specRelayVia(hm, targetIps, relayHostIp) && result1 == specRelayFor(hm, targetIps, relayHostIp)
 //@   assigns nothing
 //@ func (*RelayState).CopyRelayIps
 //@   trusted snapshot of the relay list under its lock
@@ -1458,6 +1461,48 @@ func specHostAt(hm *HostMap, a netip.Addr, m int) *HostInfo {
 //@   loop 1 invariant[none] added == 0
 //@   loop 1 invariant forall(func(m int) bool { return implies(0 <= m && m < rangeindex && m < n0, !bytes.Equal(hostinfo.HandshakePacket[handshakePacket], specHostAt(hm.mainHostMap, a0, m).HandshakePacket[handshakePacket])) })
 //@   loop 1 assigns nothing
+
+// =====================================================================
+// C39 — relays forward only for the pair they were set up for (data path)
+// =====================================================================
+//
+// handleOutsideRelayPacket is reached only for a relay packet that the tunnel
+// it arrived on authenticated (VerifyRelay, C12/C14). It forwards (one call of
+// SendVia, counted by `forwarded`) only if the relay entry that the arriving
+// tunnel holds under the packet's relay index is of forwarding type, and then
+// only onto the tunnel and relay entry that the hostmap returns for exactly
+// (the arriving peer's addresses, that entry's peer address), and only if
+// that onward entry is established and of forwarding type; a terminal entry
+// is unwrapped locally (re-entering readOutsidePackets) and never forwarded.
+
+//@ func specRelayVia
+//@   opaque
+func specRelayVia(hm *HostMap, targets []netip.Addr, relayHost netip.Addr) *HostInfo { return nil }
+
+//@ func specRelayFor
+//@   opaque
+func specRelayFor(hm *HostMap, targets []netip.Addr, relayHost netip.Addr) *Relay { return nil }
+
+//@ func specRelayByIdx
+//@   opaque
+func specRelayByIdx(rs *RelayState, idx uint32) *Relay { return nil }
+
+//@ func (*RelayState).QueryRelayForByIdx
+//@   trusted read-only lookup of the relay entry under this index in the tunnel's own relay table
+//@   ensures result0 == specRelayByIdx(rs, idx) && implies(result1, result0 != nil)
+//@   assigns nothing
+
+//@ func (*Interface).handleOutsideRelayPacket impl
+//@   props C39
+//@   ghost H0 func(uint64) bool
+//@   ghost H func(uint64) bool
+//@   ghost k uint64
+//@   ghost forwarded int = 0
+//@   requires f != nil && hostinfo != nil && rxc != nil && rxc.h != nil && f.l != nil && f.hostMap != nil && f.handshakeManager != nil && f.connectionManager != nil && f.relayManager != nil && rxc.lhh != nil && f.myVpnNetworksTable != nil && len(rxc.nb) >= 12
+//@   requires hostinfo.ConnectionState != nil && hostinfo.ConnectionState.dKey != nil && len(hostinfo.vpnAddrs) >= 1 && len(packet) >= 16+hostinfo.ConnectionState.dKey.Overhead()
+//@   old idx0 = rxc.h.RemoteIndex
+//@   callrequires (*Interface).SendVia specRelayByIdx(&hostinfo.relayState, idx0) != nil && specRelayByIdx(&hostinfo.relayState, idx0).Type == ForwardingType && arg1 == specRelayVia(f.hostMap, hostinfo.vpnAddrs, specRelayByIdx(&hostinfo.relayState, idx0).PeerAddr) && arg2 == specRelayFor(f.hostMap, hostinfo.vpnAddrs, specRelayByIdx(&hostinfo.relayState, idx0).PeerAddr) && arg2.State == Established && arg2.Type == ForwardingType
+//@   ensures[once] forwarded <= 1
 
 // =====================================================================
 // C38 — allow lists: longest prefix with a safe default (query side)
